@@ -10,7 +10,7 @@ META = {
     "id": "C03",
     "level": "model_checking",
     "technique": "TLA+ specs Pool (all interleavings of chunked Pool.map with ordered collection; switches OrderedCollect/WorkerState must be refuted) and Runner (C03_TargetFree over every processing order); families of real solves (1/2/3/negative core counts, every permutation and sub-set of the targets) with per-process logs of run_op_integration; TLC (PoolTrace) checks log conformance and bitwise equality of operator and error digests within each family",
-    "text": "B1: TLC explores every interleaving of up to 3 workers over up to 6 grid points with chunked hand-out and verifies that the collected list is schedule-free; two design switches (completion-order collection, worker-local state) each yield a counterexample. The Runner design shows that the word of a target is a function of the instance and target alone for every iteration order of the recipe set. B2/B3: for random instances with 1-3 targets the real solver (real quadrature, 3-point grid, LO; NLO in thorough) runs with n_integration_cores in {1,2,3,-13}, with every permutation of the targets and every non-empty subset (half of the base instances contain two targets of the same nf whose scales differ by a relative 1e-7); the sha256 of operator and error arrays per target must coincide across the whole family, and the per-process logs must show every grid point integrated exactly once.",
+    "text": "B1: TLC explores every interleaving of up to 3 workers over up to 6 grid points with chunked hand-out and verifies that the collected list is schedule-free; two design switches (completion-order collection, worker-local state) each yield a counterexample. The Runner design shows that the word of a target is a function of the instance and target alone for every iteration order of the recipe set. B2/B3: for random instances with 1-3 targets the real solver (real quadrature, 3-point grid, LO; NLO in thorough) runs with n_integration_cores in {1,2,3,-13}, with every permutation of the targets and every non-empty subset (a third of the base instances contain two targets of the same nf whose scales differ by a relative 1e-7; a third are structured: a target exactly on a matching scale with the lower nf, one crossing it and the same scale with the upper nf, under an expanded or exponentiated scale variation with ratio != 1; the rest are random with a scale variation); the sha256 of operator and error arrays per target must coincide across the whole family, and the per-process logs must show every grid point integrated exactly once.",
     "note": "Interleavings of real worker processes are those the OS produces in the runs (a handful per pool); the exhaustive interleaving argument is on the Pool model, bound by the logs (each item once, ordered collection observed through bitwise equal results).",
     "design_ref": "4.5, 5 C03",
     "rule": "family = (instance, target) with all runs containing that target (cores variants, permutations, subsets); non-trivial = family with >= 3 runs and a path of >= 2 segments",
@@ -20,12 +20,12 @@ META = {
 def _solve(args):
     from harness.drivers import runner
 
-    seed, inst, cores, order, label = args
+    seed, inst, cores, order, label, sv, xif = args
     tab = runner.scale_table(random.Random(seed))
     # token 6 is a near-duplicate of token 3 (relative 1e-7 in mu^2): a distinct target that
     # np.isclose would call equal
     tab[6] = tab[3] * (1 + 5e-8)
-    r = runner.solve_real(inst, tab, cores=cores, pool_log=True, order=order)
+    r = runner.solve_real(inst, tab, cores=cores, pool_log=True, order=order, sv=sv, xif=xif)
     return {"label": label, "inst": inst, "err": r["err"], "ops": r["ops"], "pools": r["pools"]}
 
 
@@ -40,7 +40,7 @@ def run(chk):
     if r.violated:
         raise MachineryError(f"Runner design violated {r.violated}")
 
-    nbase = 6 if chk.thorough() else 2
+    nbase = 6 if chk.thorough() else 3
     jobs = []
     bases = []
     for b in range(nbase):
@@ -51,17 +51,29 @@ def run(chk):
             # a pair of nearly degenerate targets (same nf) among the co-targets
             nf = inst["targets"][0][1]
             inst["targets"] = [[3, nf], [6, nf]] + [t for t in inst["targets"][:1] if t[0] not in (3, 6)]
+        sv, xif = None, 1.0
+        if b % 3 == 1:
+            # structured family: a target exactly on a matching scale with the lower nf, one that crosses
+            # that scale, and the same scale with the upper nf - under a scale variation with ratio != 1
+            # (the last segment of the first is built differently from the intermediate one of the second)
+            if chk.rng.random() < 0.5:
+                inst = {"ms": [2, 4, 5], "o": [1, 3], "targets": [[3, 4], [2, 3], [2, 4]]}
+            else:
+                inst = {"ms": [2, 4, 5], "o": [3, 4], "targets": [[5, 5], [4, 4], [4, 5]]}
+            sv, xif = chk.rng.choice([("expanded", 1.4), ("expanded", 0.7), ("exponentiated", 1.4)])
+        elif b % 3 == 2:
+            sv, xif = chk.rng.choice([("exponentiated", 0.7), ("expanded", 1.3)])
         seed = chk.rng.randrange(2**31)
         order = (2, 0) if (chk.thorough() and b % 2) else (1, 0)
         bases.append(inst)
         ts = inst["targets"]
         for cores in (1, 2, 3, -13):
-            jobs.append((seed, inst, cores, order, f"base{b}:cores={cores}"))
+            jobs.append((seed, inst, cores, order, f"base{b}:cores={cores}", sv, xif))
         for perm in list(itertools.permutations(ts))[1:]:
-            jobs.append((seed, dict(inst, targets=[list(t) for t in perm]), 1, order, f"base{b}:target-order={list(perm)}"))
+            jobs.append((seed, dict(inst, targets=[list(t) for t in perm]), 1, order, f"base{b}:target-order={list(perm)}", sv, xif))
         for n in range(1, len(ts)):
             for sub in itertools.combinations(ts, n):
-                jobs.append((seed, dict(inst, targets=[list(t) for t in sub]), 2 if n == 1 else 1, order, f"base{b}:co-targets={list(sub)}"))
+                jobs.append((seed, dict(inst, targets=[list(t) for t in sub]), 2 if n == 1 else 1, order, f"base{b}:co-targets={list(sub)}", sv, xif))
     from concurrent.futures import ProcessPoolExecutor
 
     # executor workers are not daemonic, so the solver can start its own pools
